@@ -2,209 +2,10 @@
 //@ include prelude/crypto.rs
 //@ include prelude/std_extra.rs
 use std::str::FromStr;
-use std::fmt::{Debug, Display, Formatter, Result as FmtResult};
-
-// ===================== TRUSTED: chrono 0.4.45 NaiveDate stand-in (only what signing_key.rs uses) =====================
-#[derive(Clone, Copy)]
-pub struct NaiveDate { pub ghost days: int }
-pub struct DelayedFormat { pub ghost out: Seq<char> }
-/// strftime rendering of a calendar date; uninterpreted (chrono's calendar arithmetic is assumed, not proved)
-pub uninterp spec fn strftime_date(d: NaiveDate, fmt: Seq<char>) -> Seq<char>;
-impl NaiveDate {
-    #[verifier::external_body]
-    pub fn format(&self, fmt: &str) -> (r: DelayedFormat) ensures r.out == strftime_date(*self, fmt@) { unimplemented!() }
-}
-impl DelayedFormat {
-    #[verifier::external_body]
-    pub fn to_string(&self) -> (r: String) ensures r@ == self.out { unimplemented!() }
-}
-
-// ===================== TRUSTED: std stand-ins =====================
-pub uninterp spec fn fmt_out(f: Formatter) -> Seq<char>;
-pub open spec fn fmt_wrote(o: Seq<char>, n: Seq<char>, s: Seq<char>, ok: bool) -> bool {
-    o.is_prefix_of(n) && n.subrange(o.len() as int, n.len() as int).is_prefix_of(s) && (ok ==> n == o + s)
-}
-pub assume_specification<'a> [Formatter::<'a>::write_str] (f: &mut Formatter<'a>, s: &str) -> (r: FmtResult)
-    ensures fmt_wrote(fmt_out(*old(f)), fmt_out(*final(f)), s@, r.is_ok());
-
-// ===================== spec =====================
-pub open spec fn AWS4() -> Seq<u8> { seq![0x41u8, 0x57u8, 0x53u8, 0x34u8] }
-pub open spec fn YMD() -> Seq<char> { seq!['%', 'Y', '%', 'm', '%', 'd'] }
-pub open spec fn AWS4_REQUEST_BYTES() -> Seq<u8> { seq![0x61u8, 0x77u8, 0x73u8, 0x34u8, 0x5fu8, 0x72u8, 0x65u8, 0x71u8, 0x75u8, 0x65u8, 0x73u8, 0x74u8] }
-/// The SigV4 chain, taken from the property statement (C06)
-pub open spec fn spec_kdate(secret: Seq<u8>, d: NaiveDate) -> Seq<u8> { spec_hmac(AWS4() + secret, str_bytes(strftime_date(d, YMD()))) }
-pub open spec fn spec_kregion(kdate: Seq<u8>, region: Seq<u8>) -> Seq<u8> { spec_hmac(kdate, region) }
-pub open spec fn spec_kservice(kregion: Seq<u8>, service: Seq<u8>) -> Seq<u8> { spec_hmac(kregion, service) }
-pub open spec fn spec_ksigning(kservice: Seq<u8>) -> Seq<u8> { spec_hmac(kservice, AWS4_REQUEST_BYTES()) }
-
-//@ item crypto.rs const SHA256_OUTPUT_LEN
-//@ end
-//@ item signing_key.rs const AWS4_REQUEST
-//@ end
-
-//@ fn crypto.rs hmac_sha256
-//@ props C08 C06 C01
-//@ ret r
-//@ spec
-    ensures r@ == spec_hmac(key@, value@), //# C06 C01 name=key_then_value
-//@ end
-//@ fn crypto.rs sha256
-//@ props C08 C01 C12
-//@ ret r
-//@ spec
-    ensures r@ == spec_sha256(value@), //# C01 C12 name=digest_of_value
-//@ end
-
-#[derive(Clone, Copy, Debug, Eq, PartialEq)]
-pub struct KeyTooLongError;
-
-//@ item signing_key.rs struct KSecretKey
-//@ end
-//@ item signing_key.rs struct KDateKey
-//@ end
-//@ item signing_key.rs struct KRegionKey
-//@ end
-//@ item signing_key.rs struct KServiceKey
-//@ end
-//@ item signing_key.rs struct KSigningKey
-//@ end
-
-impl<const M: usize> KSecretKey<M> {
-    /// data-structure invariant (DESIGN.md 3.5)
-    #[verifier::type_invariant]
-    pub closed spec fn wf(self) -> bool {
-        4 <= self.len <= M
-        && self.prefixed_key@.subrange(0, 4) == AWS4()
-        && forall|i: int| self.len <= i < M ==> self.prefixed_key@[i] == 0
-    }
-    pub closed spec fn secret(self) -> Seq<u8> { self.prefixed_key@.subrange(4, self.len as int) }
-    pub closed spec fn buf(self) -> Seq<u8> { self.prefixed_key@ }
-    pub closed spec fn slen(self) -> int { self.len as int }
-}
-impl KDateKey { pub closed spec fn k(self) -> Seq<u8> { self.key@ } }
-impl KRegionKey { pub closed spec fn k(self) -> Seq<u8> { self.key@ } }
-impl KServiceKey { pub closed spec fn k(self) -> Seq<u8> { self.key@ } }
-impl KSigningKey { pub closed spec fn k(self) -> Seq<u8> { self.key@ } }
-
-impl<const M: usize> FromStr for KSecretKey<M> {
-    type Err = KeyTooLongError;
-
-//@ fn signing_key.rs impl<const M: usize> FromStr for KSecretKey<M> :: from_str
-//@ props C08 C06
-//@ ret r
-//@ spec
-    ensures
-        r.is_ok() <==> raw.spec_bytes().len() + 4 <= M, //# C06 name=accept_iff_fits
-        r.is_ok() ==> r.unwrap().secret() == raw.spec_bytes(), //# C06 name=secret_round_trip
-//@ bodystart
-        proof { broadcast use axiom_str_len_isize; }
-//@ end
-}
-
-impl AsRef<[u8]> for KSecretKey {
-//@ fn signing_key.rs impl AsRef<[u8]> for KSecretKey :: as_ref
-//@ props C08 C06
-//@ ret r
-//@ spec
-    ensures r@ == self.secret(), //# C06 name=secret_read_back
-//@ bodystart
-        proof { use_type_invariant(self); }
-//@ end
-}
-
-impl KSecretKey {
-//@ fn signing_key.rs impl KSecretKey :: to_kdate
-//@ props C08 C06
-//@ ret r
-//@ spec
-    ensures r.k() == spec_kdate(self.secret(), date), //# C06 name=kdate_chain
-//@ bodystart
-        proof { use_type_invariant(self); broadcast use axiom_hmac_len; }
-//@ after 1 `let date = date.as_bytes();`
-        proof {
-            reveal_strlit("%Y%m%d");
-            assert("%Y%m%d"@ =~= YMD());
-            let l = self.len as int;
-            assert(self.prefixed_key@ =~= (AWS4() + self.secret()) + zeros(44 - l));
-            axiom_hmac_zero_pad(AWS4() + self.secret(), 44 - l, date@);
-        }
-//@ end
-//@ fn signing_key.rs impl KSecretKey :: to_kregion
-//@ props C08 C06
-//@ ret r
-//@ spec
-    ensures r.k() == spec_kregion(spec_kdate(self.secret(), date), region.spec_bytes()), //# C06 name=shortcut_eq_steps
-//@ end
-//@ fn signing_key.rs impl KSecretKey :: to_kservice
-//@ props C08 C06
-//@ ret r
-//@ spec
-    ensures r.k() == spec_kservice(spec_kregion(spec_kdate(self.secret(), date), region.spec_bytes()), service.spec_bytes()), //# C06 name=shortcut_eq_steps
-//@ end
-//@ fn signing_key.rs impl KSecretKey :: to_ksigning
-//@ props C08 C06
-//@ ret r
-//@ spec
-    ensures r.k() == spec_ksigning(spec_kservice(spec_kregion(spec_kdate(self.secret(), date), region.spec_bytes()), service.spec_bytes())), //# C06 name=shortcut_eq_steps
-//@ end
-}
-
-impl KDateKey {
-//@ fn signing_key.rs impl KDateKey :: to_kregion
-//@ props C08 C06
-//@ ret r
-//@ spec
-    ensures r.k() == spec_kregion(self.k(), region.spec_bytes()), //# C06 name=kregion_chain
-//@ bodystart
-        proof { broadcast use axiom_hmac_len; }
-//@ end
-//@ fn signing_key.rs impl KDateKey :: to_kservice
-//@ props C08 C06
-//@ ret r
-//@ spec
-    ensures r.k() == spec_kservice(spec_kregion(self.k(), region.spec_bytes()), service.spec_bytes()), //# C06 name=shortcut_eq_steps
-//@ end
-//@ fn signing_key.rs impl KDateKey :: to_ksigning
-//@ props C08 C06
-//@ ret r
-//@ spec
-    ensures r.k() == spec_ksigning(spec_kservice(spec_kregion(self.k(), region.spec_bytes()), service.spec_bytes())), //# C06 name=shortcut_eq_steps
-//@ end
-}
-
-impl KRegionKey {
-//@ fn signing_key.rs impl KRegionKey :: to_kservice
-//@ props C08 C06
-//@ ret r
-//@ spec
-    ensures r.k() == spec_kservice(self.k(), service.spec_bytes()), //# C06 name=kservice_chain
-//@ bodystart
-        proof { broadcast use axiom_hmac_len; }
-//@ end
-//@ fn signing_key.rs impl KRegionKey :: to_ksigning
-//@ props C08 C06
-//@ ret r
-//@ spec
-    ensures r.k() == spec_ksigning(spec_kservice(self.k(), service.spec_bytes())), //# C06 name=shortcut_eq_steps
-//@ end
-}
-
-impl KServiceKey {
-//@ fn signing_key.rs impl KServiceKey :: to_ksigning
-//@ props C08 C06
-//@ ret r
-//@ spec
-    ensures r.k() == spec_ksigning(self.k()), //# C06 name=ksigning_chain
-//@ bodystart
-        proof {
-            broadcast use axiom_hmac_len;
-            reveal_strlit("aws4_request");
-            assert(AWS4_REQUEST@ =~= seq!['a','w','s','4','_','r','e','q','u','e','s','t']);
-            vstd::utf8::is_ascii_chars_encode_utf8(AWS4_REQUEST@);
-            assert(AWS4_REQUEST.spec_bytes() =~= AWS4_REQUEST_BYTES());
-        }
-//@ end
-}
-
-} // verus!
-fn main() {}
+use std::fmt::{Formatter, Result as FmtResult};
+//@ include prelude/chrono_date.rs
+//@ include prelude/fmt.rs
+//@ include spec/keys.rs
+//@ include contracts/crypto.rs
+//@ include contracts/keys.rs
+//@ include prelude/tail.rs
